@@ -1,5 +1,7 @@
-(* Check/Chk_C14.v -- correspondence checker for C14: outcome, delivered results and event list of a
-   real optimizer / evaluator step under a fault script vs. Model/Step.v. *)
+(* Check/Chk_C14.v -- correspondence checker for C14: outcome, delivered results, event list, number of
+   evaluator calls and Plan.aborted flags of a real optimizer / evaluator step (optionally with nested
+   optimizations to any depth, optionally run through BasicOptimizer) under a fault script vs.
+   Model/Step.v; plus the property's clauses evaluated directly on the observation. *)
 From Coq Require Import String List Bool Arith ZArith QArith.
 From Ropt Require Import Base.Num Base.ListX Model.Step Gen.Generated.
 Import ListNotations.
@@ -8,13 +10,19 @@ Open Scope nat_scope.
 Inductive obs_outcome := OExit (z : Z) | OExc (cls : string).
 
 Record case := {
-  c_evalstep : bool;             (* true: DefaultEvaluatorStep, false: DefaultOptimizerStep *)
+  c_evalstep : bool;             (* true: DefaultEvaluatorStep, false: DefaultOptimizerStep (also through BasicOptimizer) *)
   c_cfg : cfg;
   c_script : list req;
-  c_nested : option (cfg * list (list req));   (* nested optimization: its configuration, one script per outer request *)
+  c_tree : option nscript;       (* optimizer step with nested optimizations: the whole tree (root = c_cfg / c_script) *)
+  c_depth : nat;                 (* number of nested plan levels below the plan of the step *)
+  c_excls : string;              (* class of the exception raised by the harness' evaluator on an FRaise fault *)
   c_outcome : obs_outcome;       (* implementation: exit code value or exception class *)
   c_delivered : list res;        (* implementation: results seen by the FINISHED_EVALUATION observer *)
-  c_events : list Z              (* implementation: EventType values seen by the observers, in order *)
+  c_groups : list nat;           (* implementation: number of results carried by each FINISHED_EVALUATION event *)
+  c_events : list Z;             (* implementation: EventType values seen by the observers, in order *)
+  c_calls : nat;                 (* implementation: number of calls of the user's evaluator *)
+  c_aborted : list bool          (* implementation: Plan.aborted of the step's plan and of the nested plans, outermost
+                                    first ([] when the plan is not observable: BasicOptimizer) *)
 }.
 
 Fixpoint lookup (tbl : list (string * Z)) (n : string) : option Z :=
@@ -28,12 +36,10 @@ Definition rkind_eqb (a b : rkind) : bool := match a, b with RF, RF | RG, RG => 
 Definition res_eqb (a b : res) : bool :=
   rkind_eqb (r_kind a) (r_kind b) && Bool.eqb (r_has a) (r_has b) && Bool.eqb (r_allf a) (r_allf b).
 
-(* the class of the exception injected by the harness' evaluator *)
-Definition injected_exception : string := "ValueError".
-Definition outcome_eqb (m : outcome) (o : obs_outcome) : bool :=
+Definition outcome_eqb (cls : string) (m : outcome) (o : obs_outcome) : bool :=
   match m, o with
   | Exit c, OExit z => Z.eqb (code_z c) z
-  | Raise, OExc cls => String.eqb cls injected_exception
+  | Raise, OExc cls' => String.eqb cls' cls       (* the very exception the evaluator raised *)
   | _, _ => false
   end.
 
@@ -46,22 +52,35 @@ Definition wf_req (c : cfg) (r : req) : bool :=
       match rk r with KF => true | _ => batch r =? 0 end
   | _ => true
   end.
+Definition wf_cfg (R : nat) (c : cfg) : bool :=
+  (nreal c =? R) && (length (order c) =? R) && forallb (fun r => existsb (Nat.eqb r) (order c)) (seq 0 R) &&
+  forallb (fun r => r <? R) (zerow c) && (length (zerow c) <? R).
+(* requests that trigger a nested run are single-vector F / FG requests (the nested result replaces the point) *)
+Fixpoint wf_tree (R : nat) (t : nscript) : bool :=
+  match t with
+  | NS c items =>
+      wf_cfg R c &&
+      forallb (fun it =>
+                 wf_req c (fst it) &&
+                 match snd it with
+                 | None => true
+                 | Some st =>
+                     match rk (fst it) with KG => false | _ => batch (fst it) =? 0 end && wf_tree R st
+                 end) items
+  end.
+Definition root_matches (c : case) (t : nscript) : bool :=
+  match t with NS _ items => length items =? length (c_script c) end.
 Definition wf_case (c : case) : bool :=
   forallb (wf_req (c_cfg c)) (c_script c) &&
-  (length (order (c_cfg c)) =? nreal (c_cfg c)) &&
-  forallb (fun r => existsb (Nat.eqb r) (order (c_cfg c))) (seq 0 (nreal (c_cfg c))) &&
+  wf_cfg (nreal (c_cfg c)) (c_cfg c) &&
   (min_stddev =? min_stddev_realizations) &&
   (if c_evalstep c then length (c_script c) =? 1 else true) &&
-  match c_nested c with
-  | Some (ic, scripts) =>
-      negb (c_evalstep c) && (length scripts =? length (c_script c)) &&
-      forallb (fun s => forallb (wf_req ic) s) scripts && (nreal ic =? nreal (c_cfg c)) &&
-      forallb (fun r => match rk r with KG => false | _ => batch r =? 0 end) (c_script c) &&
-      forallb (fun r => existsb (Nat.eqb r) (order ic)) (seq 0 (nreal ic))
-  | None => true
+  match c_tree c with
+  | Some t => negb (c_evalstep c) && wf_tree (nreal (c_cfg c)) t && root_matches c t
+  | None => c_depth c =? 0
   end.
 
-(* property clauses evaluated directly on the observation *)
+(* ---- property clauses evaluated directly on the observation ------------------------------------ *)
 Definition is_F (r : res) : bool := rkind_eqb (r_kind r) RF.
 Fixpoint cache_ok (tr : option nat) (s : list req) : bool :=
   match s with
@@ -73,35 +92,75 @@ Fixpoint cache_ok (tr : option nat) (s : list req) : bool :=
       | KG => match tr with Some p => (p =? pt r) && cache_ok tr t | None => false end
       end
   end.
+Definition nested (c : case) : bool := match c_tree c with Some _ => true | None => false end.
+(* function evaluations never exceed max_functions + (largest batch - 1) *)
 Definition budget_ok (c : case) : bool :=
   match maxf (c_cfg c) with
   | Some m =>
-      if negb (c_evalstep c) && cache_ok None (c_script c) && negb (match c_nested c with Some _ => true | None => false end) then
+      if negb (c_evalstep c) && cache_ok None (c_script c) && negb (nested c) then
         length (filter is_F (c_delivered c)) <=?
           m + (fold_right Nat.max 1 (map (fun r => length (vectors r)) (c_script c)) - 1)
       else true
   | None => true
   end.
 Definition has_raise (s : list req) : bool := existsb (fun r => match flt r with FRaise => true | _ => false end) s.
+Fixpoint tree_has_raise (t : nscript) : bool :=
+  match t with
+  | NS _ items =>
+      existsb (fun it => match flt (fst it) with FRaise => true | _ => false end ||
+                         match snd it with Some st => tree_has_raise st | None => false end) items
+  end.
+(* an exception leaves the step only when the user's evaluator raised one, and it is that exception *)
 Definition no_internal_exception (c : case) : bool :=
   match c_outcome c with
-  | OExc _ => has_raise (c_script c) ||
-              match c_nested c with Some (_, scripts) => existsb has_raise scripts | None => false end
+  | OExc cls => (has_raise (c_script c) || match c_tree c with Some t => tree_has_raise t | None => false end) &&
+                String.eqb cls (c_excls c)
   | OExit _ => true
   end.
+(* every START_EVALUATION is followed by exactly one call of the evaluator (no retry, no skipped call), and the
+   FINISHED_EVALUATION events carry all delivered results *)
+Definition count_z (z : Z) (l : list Z) : nat := length (filter (Z.eqb z) l).
+Definition calls_ok (c : case) : bool :=
+  (c_calls c =? count_z (evt_z StartEval) (c_events c)) &&
+  (length (c_groups c) =? count_z (evt_z FinEval) (c_events c)) &&
+  (fold_right Nat.add 0 (c_groups c) =? length (c_delivered c)).
+(* TOO_FEW_REALIZATIONS exactly when the results of the last evaluation say so; an evaluation whose results say so
+   ends the run (step without nested optimization: all results belong to one configuration) *)
+Definition bad (c : case) (r : res) : bool :=
+  negb (r_has r) || (negb (c_evalstep c) && check_failures (c_cfg c) && r_allf r).
+Fixpoint split_groups (g : list nat) (d : list res) : list (list res) :=
+  match g with [] => [] | n :: t => firstn n d :: split_groups t (skipn n d) end.
+Definition few_consistent (c : case) : bool :=
+  if nested c then true else
+  let gs := split_groups (c_groups c) (c_delivered c) in
+  let last_bad := existsb (bad c) (last gs []) in
+  forallb (fun g => negb (existsb (bad c) g)) (removelast gs) &&
+  match c_outcome c with
+  | OExit z => Bool.eqb (Z.eqb z (code_z TooFew)) last_bad
+  | OExc _ => negb last_bad
+  end.
 
-Definition model_obs (c : case) : outcome * list res * list evt :=
+(* ---- the model's prediction -------------------------------------------------------------------- *)
+Definition is_user_abort (o : outcome) : bool := match o with Exit UserAbort => true | _ => false end.
+(* (outcome, delivered, events, Plan.aborted flags outermost first) *)
+Definition model_obs (c : case) : outcome * list res * list evt * list bool :=
   if c_evalstep c then
-    match c_script c with r :: _ => run_evaluator_step (c_cfg c) r | [] => (Raise, [], []) end
-  else match c_nested c with
-       | Some (ic, scripts) => run_nested_step (c_cfg c) ic (combine (c_script c) scripts)
-       | None => run_optimizer_step (c_cfg c) (c_script c)
+    match c_script c with
+    | r :: _ => let '(o, d, e) := run_evaluator_step (c_cfg c) r in (o, d, e, [is_user_abort o])
+    | [] => (Raise, [], [], [])
+    end
+  else match c_tree c with
+       | Some t =>
+           let '(o, d, l, _) := run_tree t [] in
+           (o, d, StartOpt :: flat_tr l ++ closing o FinOpt, is_user_abort o :: aborted_below (c_depth c) l)
+       | None => let '(o, d, e) := run_optimizer_step (c_cfg c) (c_script c) in (o, d, e, [is_user_abort o])
        end.
 
 Definition check_case (c : case) : bool :=
   wf_case c &&
-  (let '(o, d, e) := model_obs c in
-   outcome_eqb o (c_outcome c) &&
+  (let '(o, d, e, ab) := model_obs c in
+   outcome_eqb (c_excls c) o (c_outcome c) &&
    list_eqb res_eqb d (c_delivered c) &&
-   list_eqb Z.eqb (map evt_z e) (c_events c)) &&
-  budget_ok c && no_internal_exception c.
+   list_eqb Z.eqb (map evt_z e) (c_events c) &&
+   match c_aborted c with [] => true | obs_ab => list_eqb Bool.eqb ab obs_ab end) &&
+  budget_ok c && no_internal_exception c && calls_ok c && few_consistent c.
